@@ -58,7 +58,12 @@ def pipeline(run, cls, N, r, kinds):
     def midpoints(ex, e, env):
         args = [ex.ev(a, env) for a in e.args]
         sub = ArrExec(src, "operation"); sub.hyps = ex.hyps; sub.fn_line = mp.lineno
-        return sub.block(body_of(mp), {"start": args[0], "end": args[1], "resolution": args[2]})
+        names = [a.arg for a in mp.args.args]
+        dflt = dict(zip(names[len(names) - len(mp.args.defaults):], [ast.literal_eval(ast.unparse(d)) for d in mp.args.defaults]))
+        benv = {}
+        for k_, nm in enumerate(names):
+            benv[nm] = args[k_] if k_ < len(args) else (IntS(z3.IntVal(dflt[nm])) if isinstance(dflt.get(nm), int) else dflt[nm])
+        return sub.block(body_of(mp), benv)
 
     def norm_compute(f):
         def h(ex, recv, args, node):
